@@ -21,6 +21,12 @@ from .types import NeedsContract, OutsideSubset
 PROVED, REFUTED, UNKNOWN, ERROR = "proved", "refuted", "unknown", "error"
 
 
+def _has_q(f: z3.ExprRef) -> bool:
+    from .symex import _has_quantifier
+
+    return _has_quantifier(f)
+
+
 def _conjuncts(goal: z3.ExprRef, hyp: tuple = ()) -> list[tuple[tuple, z3.ExprRef]]:
     """Split  h1 => (h2 => (a & b))  into [((h1,h2), a), ((h1,h2), b)]."""
     if z3.is_implies(goal):
@@ -195,6 +201,19 @@ class Verifier:
             ex.frames.pop()
             meta["paths"] = len(outcomes)
             obls: list[Obligation] = list(ex.obligations)
+            if k.split is not None and getattr(k, "split_all", False):
+                sctx = Ctx(ex, env, "prove", old, old)
+                allcells = [(n, smt.lift(cnd).z) for n, cnd in k.split(sctx)]
+                split_obls: list[Obligation] = []
+                for o in obls:
+                    for n, cnd in allcells:
+                        fs = z3.Solver()
+                        fs.set("timeout", 300)
+                        fs.add(*[f for f in o.pc if not _has_q(f)], cnd)
+                        if fs.check() == z3.unsat:
+                            continue
+                        split_obls.append(Obligation(f"{o.label}[{n}]", o.pc + [cnd], o.goal, o.node, o.func, o.path, o.kind, dict(o.info, cell=n)))
+                obls = split_obls
             for r in outcomes:
                 obls.extend(self.outcome_obligations(ex, k, fi, env, old, r))
             results = [self.discharge(ex, o, key, env) for o in obls]
@@ -239,7 +258,9 @@ class Verifier:
         if r.kind in ("return", "fall"):
             val = r.value if r.kind == "return" else smt.lift(None)
             td = ex.result_td(k, fi)
-            if td != smt.TAny and not isinstance(td, TRefT):
+            if isinstance(td, smt.TTupleT):
+                pass  # python-level tuple: clauses index its items
+            elif td != smt.TAny and not isinstance(td, TRefT):
                 fresh = getattr(val, "fresh", False)
                 val = ex.to_sv(val, td, st, r.node)
                 val.fresh = fresh
@@ -368,6 +389,22 @@ def short_key(fi: FuncInfo) -> str:
     return fi.qualname[len(PKG) + 1:] if fi.qualname.startswith(PKG + ".") else fi.qualname
 
 
+def unverified_impls(repo: Repo, reg: Registry, pid: str) -> list[str]:
+    out = []
+    for key, c in reg.contracts.items():
+        if pid not in c.properties or not c.unverified_impls or not c.virtual:
+            continue
+        try:
+            fi = repo.func(key)
+        except KeyError:
+            continue
+        for sub in repo.subclasses(fi.cls, concrete_only=False):
+            m = sub.methods.get(fi.name)
+            if m is not None and any(m.key.startswith(pfx) for pfx in c.unverified_impls):
+                out.append(f"{m.key} is assumed (not verified here) to satisfy the contract of {key}")
+    return out
+
+
 def expand_keys(repo: Repo, reg: Registry, pid: str) -> list[str]:
     """Functions to verify for a property: every contract tagged with it; virtual contracts expand
     to every non-abstract implementation found in the current tree."""
@@ -385,6 +422,8 @@ def expand_keys(repo: Repo, reg: Registry, pid: str) -> list[str]:
                 m = sub.methods.get(fi.name)
                 if m is not None and not m.abstract:
                     k2 = m.key
+                    if any(k2.startswith(pfx) for pfx in c.unverified_impls):
+                        continue
                     if k2 in reg.contracts and reg.contracts[k2] is not c and pid not in reg.contracts[k2].properties:
                         continue
                     if k2 not in out:
